@@ -21,9 +21,9 @@ def run(ctx):
     scratch = vlib.scratch_dir("C01")
     env = vlib.scrub_env(scratch=scratch)
     if tier == "quick":
-        levels, deadline, nsh = "L1,L2,L3,L4,L5", ctx["deadline"] or 420, 96
+        levels, deadline, nsh = "L1,L2,L3,L4,L5,L6", ctx["deadline"] or 420, 96
     else:
-        levels, deadline, nsh = "L1,L2,L3,L4,L5", ctx["deadline"] or 2400, 128
+        levels, deadline, nsh = "L1,L2,L3,L4,L5,L6", ctx["deadline"] or 2400, 128
     args = [["--levels", levels, "--tier", tier, "--targets", "avx,sse,mmx", "--classes", "int",
              "--corpus", corpus_arg(), "--shard", i, "--nshards", nsh, "--deadline", int(deadline)] for i in range(nsh)]
     res = vlib.run_shards(exe, args, env, timeout=deadline * 1.5 + 300, label="xprog")
@@ -35,7 +35,8 @@ def run(ctx):
         "distinct_nontrivial": int(st.get("programs_native", 0)),
         "rule": "programs of levels %s enumerated completely from the live opcode table (L1 every single-opcode form x operand kinds x "
                 "x2/x4 x 1-D/2-D x declared alignment; L2 every size-compatible opcode pair in 3 register shapes; L3 length-3 chains over a "
-                "representative alphabet; L4 the .orc corpus; L5 register-pressure / many-array / constant-n programs), each compiled for "
+                "representative alphabet; L4 the .orc corpus; L5 register-pressure / many-array / resampling / constant-n programs; L6 every plain opcode with 7, 9 and 12 filler "
+                "temporaries live across it, so that its operands sit in the upper registers), each compiled for "
                 "avx, sse and mmx and run natively vs emulation for every n in 0..N, every lead-array offset mod 32 (step = element size), "
                 "2-D shapes m in {0,1,2,3} x stride gaps, and value tables holding all tuples of the per-size alphabets (all 256 byte values; "
                 "boundary alphabets for 16/32/64 bit) for several parameter values. A program is non-trivial when at least one target produced "
